@@ -11,6 +11,9 @@
  *   B <n> <idx>...                GET_NEXT_BURST(n) + fill + imb_set_session + SUBMIT_BURST
  *   F                             FLUSH_JOB once        FB <max>   FLUSH_BURST(max)
  *   C                             GET_COMPLETED_JOB     Q          QUEUE_SIZE
+ *   FA                            flush until empty, with FLUSH_JOB after job-API submissions and
+ *                                 FLUSH_BURST after burst submissions (the two APIs must not be mixed
+ *                                 while jobs are in flight: burst flush dispatches on job->suite_id)
  * Trace: one "T" line per op (returned ids with status, queue size after) and one "R" line
  * per job handed back (imbh canonical result: status, errno, dst, tag, canaries).
  */
@@ -219,6 +222,8 @@ kscript_load(const char *path)
                 } else if (!strcmp(tok, "FB")) {
                         o->op = 'f';
                         o->n = atoi(strtok(NULL, " "));
+                } else if (!strcmp(tok, "FA")) {
+                        o->op = 'A'; /* flush everything with the API of the current episode */
                 } else if (!strcmp(tok, "C")) {
                         o->op = 'C';
                 } else if (!strcmp(tok, "Q")) {
@@ -254,6 +259,7 @@ typedef struct {
         int bad_status;
         const char *tag; /* prefix of trace lines */
         FILE *out;
+        char last_api; /* 'J' or 'B': API of the submissions in flight */
         karena *arena; /* job buffers come from here (NULL: heap) */
 } kctx;
 
@@ -268,6 +274,7 @@ kctx_new(IMB_MGR *mgr, const kscript *s, const char *tag, FILE *out)
         c->returned = calloc((size_t) s->nitems + 1, sizeof(int));
         c->tag = tag;
         c->out = out;
+        c->last_api = 'J';
         return c;
 }
 
@@ -334,6 +341,35 @@ k_prepare(kctx *c, int idx)
         }
 }
 
+/* flush until empty with the API of the jobs in flight; returns number handed back */
+static int
+k_flush_all(kctx *c)
+{
+        IMB_JOB *job;
+        imbh_str tr = { 0 };
+        const int before = c->nreturned;
+        int guard = 0;
+
+        imbh_str_add(&tr, "%s T -1 flushall%c ->", c->tag, c->last_api);
+        if (c->last_api == 'B') {
+                static IMB_JOB *jobs[IMB_MAX_JOBS];
+                uint32_t done;
+
+                while ((done = IMB_FLUSH_BURST(c->mgr, IMB_MAX_JOBS, jobs)) != 0 && guard++ < 1000)
+                        for (uint32_t i = 0; i < done; i++)
+                                k_handed_back(c, jobs[i], &tr);
+        } else {
+                while ((job = IMB_FLUSH_JOB(c->mgr)) != NULL && guard++ < 1000)
+                        k_handed_back(c, job, &tr);
+        }
+        imbh_str_add(&tr, " | q=%u pend=%d", IMB_QUEUE_SIZE(c->mgr), c->npending);
+        fprintf(c->out, "%s\n", tr.s);
+        free(tr.s);
+        for (int i = before; i < c->nreturned; i++)
+                k_print_result(c, c->returned[i]);
+        return c->nreturned - before;
+}
+
 /* runs op number n; returns number of jobs handed back */
 static int
 k_run_op(kctx *c, int opno)
@@ -344,10 +380,15 @@ k_run_op(kctx *c, int opno)
         const int before = c->nreturned;
         IMB_JOB *job;
 
+        if (o->op == 'A') {
+                free(tr.s);
+                return k_flush_all(c);
+        }
         imbh_str_add(&tr, "%s T %d %c", c->tag, opno, o->op);
         switch (o->op) {
         case 'J':
         case 'N':
+                c->last_api = 'J';
                 k_prepare(c, o->idx[0]);
                 job = IMB_GET_NEXT_JOB(mgr);
                 imbh_fill_job(job, c->runs[o->idx[0]]);
@@ -364,6 +405,7 @@ k_run_op(kctx *c, int opno)
                 IMB_JOB *jobs[IMB_MAX_BURST_SIZE];
                 uint32_t n = (uint32_t) o->n;
 
+                c->last_api = 'B';
                 if (n > IMB_MAX_BURST_SIZE)
                         n = IMB_MAX_BURST_SIZE;
                 const uint32_t got = IMB_GET_NEXT_BURST(mgr, n, jobs);
@@ -408,26 +450,6 @@ k_run_op(kctx *c, int opno)
                 break;
         }
         imbh_str_add(&tr, " | q=%u pend=%d", IMB_QUEUE_SIZE(mgr), c->npending);
-        fprintf(c->out, "%s\n", tr.s);
-        free(tr.s);
-        for (int i = before; i < c->nreturned; i++)
-                k_print_result(c, c->returned[i]);
-        return c->nreturned - before;
-}
-
-/* FLUSH_JOB until NULL; returns number handed back */
-static int
-k_flush_all(kctx *c)
-{
-        IMB_JOB *job;
-        imbh_str tr = { 0 };
-        const int before = c->nreturned;
-        int guard = 0;
-
-        imbh_str_add(&tr, "%s T -1 flushall ->", c->tag);
-        while ((job = IMB_FLUSH_JOB(c->mgr)) != NULL && guard++ < 1000)
-                k_handed_back(c, job, &tr);
-        imbh_str_add(&tr, " | q=%u pend=%d", IMB_QUEUE_SIZE(c->mgr), c->npending);
         fprintf(c->out, "%s\n", tr.s);
         free(tr.s);
         for (int i = before; i < c->nreturned; i++)
